@@ -35,7 +35,7 @@ ASSUMPTIONS = [
 ]
 PROBES = ["remove_0d", "remove_with_interfaces", "remove_highest_dim", "remove_last_subdomain", "replace_by_copy", "replace_1d_refined", "replace_0d",
           "replace_mortar_sides", "add_several_at_once", "codim0_interface", "codim2_interface", "two_subdomains_same_dim", "only_0d_left_boundaries_raises",
-          "rejected_existing_grid", "rejected_existing_interface", "rejected_codim3", "meshed_start", "empty_start", "ge_5_subdomains"]
+          "rejected_existing_grid", "rejected_existing_interface", "rejected_codim3", "meshed_start", "empty_start", "ge_5_subdomains", "replace_both_ends_in_one_call"]
 
 
 def new_grid(dim: int):
@@ -301,6 +301,41 @@ def run_history_c24(ch, tr: Trace) -> None:
             raise Violation("replacement_swaps_grid", f"after replacing {lab(g)} the old grid is still contained")
         check(f"replace {lab(g)} by {how}")
 
+    def op_replace_both_ends():
+        """One call replacing both neighbours of one meshed interface (order of the map entries is the caller's)."""
+        cands = []
+        for i in sorted(real_intf, key=key):
+            hi, lo = pair[i]
+            if i.dim != 1 or crossing or hi.dim != 2 or not simple_1d(lo):
+                continue
+            if any(j not in real_intf for j, (a, b) in pair.items() if a is hi or b is hi or a is lo or b is lo):
+                continue
+            cands.append(i)
+        if not cands:
+            return
+        i = ch.choice(cands)
+        hi, lo = pair[i]
+        hi_new = hi.copy()
+        lo_new = lo.copy()
+        lo_new._verif_replaced = getattr(lo, "_verif_replaced", False)
+        entries = [(hi, hi_new), (lo, lo_new)]
+        if ch.flag():
+            entries.reverse()
+        try:
+            mdg.replace_subdomains_and_interfaces(sd_map=dict(entries))
+        except Exception as e:  # noqa: BLE001
+            raise Violation("replace_completes", f"replacing both neighbours of {lab(i)} in one call raised {e!r}", "replace_both_ends_raises")
+        for old, new in entries:
+            subs[subs.index(old)] = new
+            data_id[new] = data_id.pop(old)
+            for j, (a, b) in list(pair.items()):
+                if a is old or b is old:
+                    na, nb = (new if a is old else a), (new if b is old else b)
+                    pair[j] = tuple(sorted((na, nb), key=key))
+        tr.probe("replace_both_ends_in_one_call")
+        tr.op("replace_both_ends", "ok", [e[0].dim for e in entries])
+        check(f"replacing both neighbours of {lab(i)} in one call (order {[e[0].dim for e in entries]})")
+
     def op_replace_mortar():
         cands = sorted([i for i in real_intf if i.dim == 1 and all(simple_1d(g) for g in i.side_grids.values())], key=key)
         if not cands:
@@ -353,6 +388,7 @@ def run_history_c24(ch, tr: Trace) -> None:
         Op("remove_subdomain", 4, op_remove, enabled=lambda: bool(subs), core=True),
         Op("replace_subdomain", 3, op_replace_sd, enabled=lambda: bool(subs)),
         Op("replace_mortar", 1, op_replace_mortar, enabled=lambda: bool(real_intf)),
+        Op("replace_both_ends", 1, op_replace_both_ends, enabled=lambda: bool(real_intf) and not crossing),
         Op("reject", 2, op_reject, enabled=lambda: bool(subs)),
     ]
     check("construction")
